@@ -912,6 +912,19 @@ def translate_item(src_root, item):
         fn = ast.FunctionDef(name=fn.name, args=fn.args, body=list(lp.body), decorator_list=[], returns=None, type_comment=None, type_params=[])
         ast.fix_missing_locations(fn)
         item = dict(item, free=list(item.get('free') or []) + [n.id for n in ast.walk(lp.target) if isinstance(n, ast.Name)])
+    if item.get('until') and item['kind'] in ('fn', 'events'):
+        # only the prefix of the body before the first top-level statement whose text matches `until`
+        keep = []
+        for st in fn.body:
+            try:
+                txt_ = ast.unparse(st)
+            except Exception:
+                txt_ = ''
+            if re.search(item['until'], txt_):
+                break
+            keep.append(st)
+        fn = ast.FunctionDef(name=fn.name, args=fn.args, body=keep, decorator_list=[], returns=None, type_comment=None, type_params=[])
+        ast.fix_missing_locations(fn)
     tr = FnTranslator(fn, events=item.get('events'), param_order=item.get('params'), free=item.get('free'))
     tr.elementwise = bool(item.get('elementwise'))
     tr.fname = item['name']
